@@ -1124,7 +1124,8 @@ impl fmt::Binary for Natural {
         let mantissa = self.mantissa();
         let bit_width = bit_width(mantissa, self.shl);
 
-        pad_integral(f, bit_width, "0b", move |f| {
+        // zero is written as a single digit
+        pad_integral(f, std::cmp::max(bit_width, 1), "0b", move |f| {
             let msd = *mantissa.last().unwrap();
             if msd == 0 {
                 return f.write_char('0');
@@ -1166,7 +1167,8 @@ impl Natural {
         let digits = bit_width.div_ceil(bits_per_digit as u128);
         let rem_bits = (bit_width % bits_per_digit as u128) as u32;
 
-        pad_integral(f, digits, prefix, move |f| {
+        // zero is written as a single digit
+        pad_integral(f, std::cmp::max(digits, 1), prefix, move |f| {
             let mut msd = *mantissa.split_off_last().unwrap();
             if msd == 0 {
                 return f.write_char('0');
